@@ -49,6 +49,10 @@ fn main() {
             let n: usize = args[6].parse().expect("nshards");
             core::run_shard(&p, tier, seed, i, n, std::path::Path::new(&args[7]));
         }
+        "contextprobe" => {
+            // parsing from unusual calling contexts (child process of C06: an abort here is observed through the exit status)
+            std::process::exit(rvmon::c06::context_probe());
+        }
         "fuzzleg" => {
             // only the coverage-guided leg (used when validating the monitors against seeded changes): rvmon fuzzleg <Cxx> <seconds>
             let fz = rvmon::fuzzleg::run(&args[2], args[3].parse().expect("seconds"), core::seed_from_env());
@@ -78,6 +82,15 @@ fn main() {
                     std::process::exit(1);
                 }
                 "C18" => std::process::exit(c18::drive(tier)),
+                _ if j["case"]["how_to_replay"] == "rvmon contextprobe" => {
+                    let st = std::process::Command::new(std::env::current_exe().unwrap()).arg("contextprobe").status().expect("probe");
+                    if st.success() {
+                        println!("replay: every calling context parses on the current tree");
+                        std::process::exit(0);
+                    }
+                    println!("VIOLATION property=C06 replay={}", args[2]);
+                    std::process::exit(1);
+                }
                 prop if j["case"]["fuzz"] == true => {
                     // a finding of the coverage-guided leg: the recorded text through the same oracles
                     let recorded = j["case"]["text_debug"].as_str().unwrap_or("");
